@@ -406,6 +406,11 @@ class _ComparisonExpression(_PatternExpression):
             self.lhs = ObjectPath.make_object_path(lhs)
         if isinstance(rhs, _Constant):
             self.rhs = rhs
+        elif isinstance(rhs, str) and self.operator in (
+            "LIKE", "MATCHES", "ISSUBSET", "ISSUPERSET",
+        ):
+            # These take a string only, whatever it looks like.
+            self.rhs = StringConstant(rhs)
         else:
             self.rhs = make_constant(rhs)
         self.negated = negated
